@@ -107,6 +107,12 @@ UNIT = {
         {'rule': 'R1', 'find': 'let mut i = 0;',
          'replace': 'proof { let in_ = input.view(); assert(in_.len() == 32 ==> in_.subrange(0, 32) =~= in_); '
                     'assert(Seq::<u8>::empty() + password@ =~= password@); } let mut i = 0;'},
+        {'rule': 'R1', 'find': 'let aes =',
+         'replace': 'let ghost k0_ = block@.subrange(0, block_size as int); let ghost el0_ = if i == 0 { 0u8 } else { data@[data_total_len - 1] }; let aes ='},
+        {'rule': 'R1', 'find': 'i += 1;',
+         'replace': 'proof { lemma_alg2b_step(password@, u@, k0_, el0_, i as int); } i += 1;'},
+        {'rule': 'R1', 'find': 'let mut hash =',
+         'replace': 'proof { lemma_alg2b_stop(password@, u@, block@.subrange(0, block_size as int), (if i == 0 { 0u8 } else { data@[data_total_len - 1] }), i as int); } let mut hash ='},
         {'rule': 'R1', 'find': 'let encrypted =',
          'replace': 'proof { let k_ = block@.subrange(0, block_size as int); assert(32 <= block_size <= 64 ==> '
                     '(k_.subrange(0, 16) =~= block@.subrange(0, 16) && k_.subrange(16, 32) =~= block@.subrange(16, 32))); } let encrypted ='},
